@@ -372,8 +372,8 @@ type Spec struct {
 	Exts      []*der.Node
 	NoExts    bool
 	V1        bool
-	SigLen    int      // junk signature length (default 256)
-	SelfSign  *RSAKey  // really sign with this key (sha256WithRSA)
+	SigLen    int     // junk signature length (default 256)
+	SelfSign  *RSAKey // really sign with this key (sha256WithRSA)
 	SigFill   byte
 }
 
